@@ -96,6 +96,18 @@ def run(ctx):
             if gen.temporal_count(g) <= 3:
                 add('equal', K, [dict(logic='CTLS', f=('A', g)), dict(logic='CTLS', f=neg(('E', neg(g)))),
                                  dict(logic='LTL', f=('A', g))], 'CTL* duality', checklaw=True)
+    # path-level expansion laws on recurrence / persistence formulas: G f = f and X G f, F f = f or X F f (LTL and CTL*)
+    for _ in range(250 if q else 5000):
+        K = gen.rand_kripke(rnd, rnd.choice([3, 4, 5]), density=rnd.choice([0.25, 0.4]))
+        a, b = rnd.choice(M0), rnd.choice(M0)
+        h = rnd.choice([('F', ('R', a, b)), ('F', ('U', a, b)), ('F', a), ('G', a), ('R', a, b), ('U', a, b), ('F', ('G', a)), ('X', ('U', a, b))])
+        o = rnd.choice(['G', 'F'])
+        lhs = (o, h)
+        rhs = ('and', h, ('X', (o, h))) if o == 'G' else ('or', h, ('X', (o, h)))
+        if gen.temporal_count(rhs) <= 6:
+            qf = rnd.choice('AE')
+            add('equal', K, [dict(logic='CTLS', f=(qf, lhs)), dict(logic='CTLS', f=(qf, rhs), mode=rnd.choice(['obj', 'text']))] +
+                ([dict(logic='LTL', f=('A', lhs)), dict(logic='LTL', f=('A', rhs))] if qf == 'A' else []), 'path expansion', checklaw=True)
     # seeded random beyond the scope
     for _ in range(400 if q else 12000):
         K = gen.rand_kripke(rnd, rnd.choice([3, 4, 5]))
